@@ -253,6 +253,7 @@ structure Hist where
   waits : List WaitRec := []
   startAll : String := ""            -- returned | blocked | error …
   startPos : Option Nat := none      -- position of `op startall`
+  startWiths : List Nat := []        -- positions of `op startwith <id>` (scenario `partial`: one per start event)
   answered : Bool := false
   noquiesce : Bool := false
   expiredBefore : Bool := false      -- some wait has returned false so far
@@ -264,6 +265,7 @@ def Hist.line (h : Hist) (pos : Nat) (ws : List String) : Hist :=
   | "op" :: "answer" :: node :: occ :: _ => { h with openTasks := h.openTasks.erase s!"{node}#{occ}" }
   | "op" :: "answered" :: _ => { h with answered := true }
   | "op" :: "startall" :: _ => { h with startPos := if h.startPos.isSome then h.startPos else some pos }
+  | "op" :: "startwith" :: _ => { h with startWiths := h.startWiths ++ [pos] }
   | "op" :: "wait" :: id :: phase :: tmo :: _ =>
     { h with waits := h.waits ++ [{ id := id.toNat?.getD 0, phase, tmo, opPos := pos, ceaseBeforeOp := !h.ceasePos.isEmpty }] }
   | "op" :: _ => h
@@ -315,7 +317,9 @@ def check (params lines : List String) : CaseResult := Id.run do
   -- shape `bnd` (boundary listener flows) is outside the completion model's programs: judged by the predicate only
   -- (so is shape `subfork`: tokens inside an embedded sub-process are counted by the sub-process's own wait group)
   -- (and scenario `prewait`: a wait issued before StartAll is not an instruction of the completion model's programs)
+  -- (and scenario `partial`: start events fired one by one with StartWith, a wait in between)
   let pinned := (scen != "free" || !manyMonitors) && shape != "bnd" && shape != "subfork" && scen != "prewait"
+    && scen != "partial"
   let mut explainedByLateSub := false
   if pinned then
     let ls := replay P scen 0 toks
@@ -349,8 +353,23 @@ def check (params lines : List String) : CaseResult := Id.run do
       r := add r s!"wait_true_before_cease: wait {w.id} returned true with {w.pending} task requests unanswered, cease traces in the run: {h.ceasePos.length}"
   -- a wait issued BEFORE the instance is started: no start event has fired, it must not report completion
   for w in h.waits do
-    if w.ret == some 1 && (match h.startPos with | some sp => w.opPos < sp | none => false) then
+    if scen != "partial" && w.ret == some 1 && (match h.startPos with | some sp => w.opPos < sp | none => false) then
       r := add r s!"wait_true_before_start: wait {w.id}, issued before StartAll, returned true (no start event has fired)"
+  -- start events fired one by one: completion may only be reported once the LAST of the n start events has fired
+  if scen == "partial" then
+    match h.startWiths.getLast? with
+    | some lastStart =>
+      if h.startWiths.length == n then
+        for w in h.waits do
+          if w.ret == some 1 && w.opPos < lastStart then
+            r := add r s!"wait_true_before_all_starts: wait {w.id} returned true while only {(h.startWiths.filter (· < w.opPos)).length} of {n} start events had fired"
+        match h.ceasePos.head? with
+        | some cp =>
+          if cp < lastStart then
+            r := add r s!"cease_before_all_starts: the cease-flow trace was emitted while only {(h.startWiths.filter (· < cp)).length} of {n} start events had fired"
+        | none => pure ()
+      else r := { r with bad := s!"partial: {h.startWiths.length} startwith ops for {n} start events" :: r.bad }
+    | none => r := { r with bad := "partial: no startwith op" :: r.bad }
   let due := h.answered && !h.noquiesce
   if due && h.startAll == "blocked" then
     r := add r (if manyMonitors then s!"startall_blocks_two_starts: StartAll has not returned at quiescence ({n} start events, shape {shape})"
